@@ -209,7 +209,7 @@ def tree_events(nodes):
 # hostile data.  Every datum carries a unique sentinel ZQ<n>X so its occurrences in the output can be located.
 FRAGMENTS = ['<', '>', '&', '"', "'", '</span>', '</div>', '</details>', '</td></tr></table>', '-->', '<!--', ']]>', '<![CDATA[', '<script>', '</script>',
              '<script>alert(1)</script>', '<i>', '<b>x</b>', '<img src=x onerror=alert(1)>', '" onmouseover="alert(1)', "' x='", '&amp;', '&lt;', '&#x27;', '&#60;', '&nosuch;',
-             '<style>', '</summary>', '<a href="javascript:alert(1)">', ' ', '\n', '\t', '.', '[', ']', 'é', ' ', '\\', '<>', '&&', '""', "''", '</', '/>', '=', ';', '<?', '?>', '<!']
+             '<style>', '</summary>', '<a href="javascript:alert(1)">', ' ', '\n', '\t', '.', '[', ']', 'é', '\x7f', '\x85', '\xad', 'ÿ', '\r', 'Ω', '\U0001F600', ' ', '\\', '<>', '&&', '""', "''", '</', '/>', '=', ';', '<?', '?>', '<!']
 SENT_RE = re.compile(r'ZQ\d+X')
 
 class Data:
@@ -354,8 +354,8 @@ def conv(value, path):
   fmt = utils.format(value, root_path=utils.KeyPath(list(path)), compact=False, verbose=False, python_format=True, max_bytes_len=64, max_str_len=256)
   items = child_items(value)
   if items is None:
-    if isinstance(value, str):
-      lk, raw, rep = 2, value, repr(value)
+    if isinstance(value, str):      # the model computes repr itself for Latin-1 strings (Model/Html.v py_repr)
+      lk, raw, rep = 2, value, ('' if all(ord(ch) < 256 for ch in value) else repr(value))
     else:
       lk = 4 if inspect.isclass(value) else 0 if isinstance(value, (bool, int, float)) else 1 if value is None else 3
       raw = ''
@@ -1394,6 +1394,17 @@ def run(ctx):
       tip.update(Html_(b_) if isinstance(b_, str) else b_)
     trs.append([8, trlib.enc(tip.element_id()), [enc_tree(t_)]]); impl_outs.append([8, trlib.enc(scr[0])]); descr.append(dict(update_inner_html=json.dumps(t_)[:300]))
     ctx.count(('inner', json.dumps(t_)), nontrivial=True, kind='update-script')
+
+  # ---- Python's repr of a str against Model py_repr: every Latin-1 character alone and next to either quote, then random strings
+  rstrs = [chr(c_) + q_ for c_ in range(256) for q_ in ('', "'", '"', '\'"')]
+  rstrs += [''.join(rng.choice(FRAGMENTS + [chr(rng.randrange(256)), "'", '"', '\\']) for _ in range(rng.randint(0, 5))) for _ in range(ctx.scale(500, 5000))]
+  for rs_ in rstrs:
+    if not all(ord(ch) < 256 for ch in rs_):
+      continue
+    trs.append([10, trlib.enc(rs_)])
+    impl_outs.append([10, 1, trlib.enc(repr(rs_))])
+    descr.append(dict(repr_of=rs_))
+    ctx.count(('repr', rs_), nontrivial=True, kind='python-repr')
 
   # ---- html.escape against the model escape (exhaustive on short strings over the critical alphabet, then random)
   alpha = '&<>"\';a#x27lt'
